@@ -3929,7 +3929,10 @@ class Argument(DerivativeTargetBase):
         shape = builder.compile(self.shape)
         out = builder.get_variable_for_evaluable(self)
         block = builder.get_block_for_evaluable(self)
-        block.assign_to(out, _pyast.Variable('numpy').get_attr('asarray').call(builder.get_argument(self.name), dtype=self.ast_dtype))
+        # Cast with `casting='same_kind'` so that a value of a wider kind (float
+        # for int, complex for float, ...) raises a TypeError instead of being
+        # silently truncated.
+        block.assign_to(out, _pyast.Variable('numpy').get_attr('asarray').call(builder.get_argument(self.name)).get_attr('astype').call(self.ast_dtype, casting=_pyast.LiteralStr('same_kind'), copy=_pyast.LiteralBool(False)))
         block.if_(_pyast.BinOp(shape, '!=', out.get_attr('shape'))).raise_(
             _pyast.Variable('ValueError').call(
                 _pyast.LiteralStr('argument {!r} has the wrong shape: expected {}, got {}').get_attr('format').call(
